@@ -15,11 +15,11 @@ LEVEL = "fault_enumeration"
 RULE = ("fault space = truncation points of the writer: frame sizes 2*nc for nc in {2,5,97,277,385} x whole frames in {1,2,22,1000} x every "
         "trailing byte count 0..frame-1 (all of them for nc<=97 in quick, 40 stratified incl. frame/2 +-1 for 277/385; all in thorough) x "
         "metadata claiming fewer / equal / more samples / still-acquiring (online reader) x integer and fractional sampling rates x Reader "
-        "and OnlineReader, plus compressed streams shorter than announced, plus readers instantiated with open=False whose file grows / shrinks before open(), plus long recordings (1e5..3e5 frames, bin and cbin) whose metadata is off by 1..3 frames. Non-trivial: trailing bytes > 0 or metadata claim != content; "
+        "and OnlineReader, plus compressed streams shorter than announced, plus readers instantiated with open=False whose file grows / shrinks before open(), plus long recordings (1e5..3e5 frames, bin and cbin) whose metadata is off by 1..3 frames, plus files of 4-byte and 1-byte samples read with the matching dtype. Non-trivial: trailing bytes > 0 or metadata claim != content; "
         "distinct = distinct (nc, frames, trailing, claim, fs, reader class)")
 ASSUMPTIONS = ["truncation = a prefix of the byte stream the writer would have produced", "at least one complete frame is present",
                "still-acquiring metadata (no fileTimeSecs / fileSizeBytes yet) is only given to OnlineReader, the class meant for it"]
-REQUIRED = {"constructions": 400, "prefix_values_checked": 400, "half_frame_or_more": 100, "beyond_end_reads": 400, "cbin_short": 2, "deferred_opens": 60, "long_off_by_few": 6}
+REQUIRED = {"constructions": 400, "prefix_values_checked": 400, "half_frame_or_more": 100, "beyond_end_reads": 400, "cbin_short": 2, "deferred_opens": 60, "long_off_by_few": 6, "other_sample_widths": 40}
 CASE_TIMEOUT = 400.0
 NCS = [2, 5, 97, 277, 385]
 FRAMES = [1, 2, 22, 1000]
@@ -49,6 +49,8 @@ def gen_cases(seed, tier):
         cases.append({"cls": "cbin-short", "seed": seed * 100 + i, "_w": 2})
     for i in range(12 if tier == "quick" else 120):
         cases.append({"cls": "deferred", "seed": seed * 100 + i, "_w": 1})
+    for i in range(6 if tier == "quick" else 60):
+        cases.append({"cls": "other-sample-width", "seed": seed * 100 + i, "_w": 1})
     for i in range(8 if tier == "quick" else 60):
         cases.append({"cls": "long-off-by-few", "seed": seed * 100 + i, "form": ["bin", "cbin"][i % 2], "_w": 3})
     return cases
@@ -171,6 +173,37 @@ def run_case(case):
             sr.close()
             nt += 1
         res.sig = f"deferred-{case['seed']}"
+    elif case["cls"] == "other-sample-width":
+        # "bytes per sample" need not be 2: the same writer streaming float32 (4 bytes) or int8 / uint8 (1 byte) samples, read with the matching dtype
+        for j in range(10):
+            dt = np.dtype([np.float32, np.float32, np.int32, np.int8][int(rng.integers(0, 4))])
+            nc = int(rng.choice([2, 5, 97]))
+            frames = int(rng.choice([1, 2, 22, 300]))
+            frame = dt.itemsize * nc
+            trailing = int(rng.choice([0, 1, frame // 2, frame - 1, int(rng.integers(0, frame))]))
+            claim_ns = int(rng.choice([frames, max(1, frames - 3), frames + 7, 2 * frames, max(1, frames // 2)]))
+            fs = float(rng.choice([30000.0, 30000.390639481]))
+            rec = G.make(rng, kind="3B2", sites=G.draw_sites(rng, "3B2", nc - 1, "dense"), ns=frames + 1, fs=fs, claim_ns=claim_ns, content="random")
+            data = (rng.standard_normal((frames + 1, nc)) * 100).astype(dt) if dt.kind == "f" else rng.integers(-100, 100, (frames + 1, nc)).astype(dt)
+            b = d / "t.ap.bin"
+            b.write_bytes(data.tobytes()[: frames * frame + trailing])
+            for cls_name in ("Reader", "OnlineReader"):
+                b.with_suffix(".meta").write_text(rec.meta_text)
+                label = f"{cls_name} dtype={dt.name} nc={nc} frames={frames} trailing={trailing}B claim={claim_ns} fs={fs}"
+                keyp = "sample-width:" + ("online" if cls_name == "OnlineReader" else "reader")
+                try:
+                    R = spikeglx.Reader if cls_name == "Reader" else spikeglx.OnlineReader
+                    sr = R(b, sort=False, dtype=dt, ignore_warnings=bool(rng.integers(0, 2)))
+                    res.count("constructions")
+                except Exception as e:
+                    res.count("constructions")
+                    res.exception(keyp + ":open-exception", e, label)
+                    continue
+                judge(res, sr, data, rec.s2v, frames, label, keyp)
+                res.count("other_sample_widths")
+                sr.close()
+                nt += 1
+        res.sig = f"width-{case['seed']}"
     elif case["cls"] == "long-off-by-few":
         # long recordings whose metadata is off by a handful of frames: the disagreement is tiny RELATIVE to the length (1e-5 and below)
         kind = str(rng.choice(["3B2", "NP2.1"]))
